@@ -1,7 +1,7 @@
 package handshake
 
 //symgo:pkg github.com/pion/dtls/v3/pkg/protocol/handshake
-//symgo:param NBODY quick=5 thorough=10
+//symgo:param NBODY quick=5 thorough=8
 
 import "github.com/pion/dtls/v3/internal/ciphersuite/types"
 
